@@ -341,12 +341,12 @@ func runKillCase(t fataler, vh, script string, nLeaves int, killTimeout time.Dur
 			}
 		}
 	}()
-	v, ok := w.waitDone(job.ID, killTimeout+20*time.Second)
+	v, ok := w.waitReported(job.ID, killTimeout+20*time.Second)
 	close(canaryStop)
 	res.canary = <-canaryMax
 	if ok && job2ID != nil {
 		var v2 jobView
-		if v2, ok = w.waitDone(*job2ID, killTimeout+20*time.Second); ok && !v2.Canceled {
+		if v2, ok = w.waitReported(*job2ID, killTimeout+20*time.Second); ok && !v2.Canceled {
 			v = v2
 		}
 	}
@@ -369,7 +369,7 @@ func runKillCase(t fataler, vh, script string, nLeaves int, killTimeout time.Dur
 	if !viaShutdown {
 		res.otherAlive = len(aliveWithMarker(m2)) >= 2
 		_ = w.pr.CancelJob(by.ID)
-		w.waitDone(by.ID, killTimeout+20*time.Second)
+		w.waitReported(by.ID, killTimeout+20*time.Second)
 	} else {
 		res.otherAlive = true
 	}
